@@ -67,6 +67,7 @@ class CallMixin:
                     continue
                 args = vals[:len(arg_exprs)]
                 kwargs = dict(zip(kw_names, vals[len(arg_exprs):]))
+                self._current_call_node = e
                 outs += self.call_value(s2, fr, fv, args, kwargs, node=e)
         return outs
 
@@ -126,6 +127,9 @@ class CallMixin:
     def call_value(self, st, fr, fv, args, kwargs, node=None):
         if isinstance(fv, ClassVal):
             return self.construct(st, fr, fv, args, kwargs)
+        if isinstance(fv, SVal) and fv.kind.name == 'Callable':
+            self.stats['deps_used'].add('callback parameter (no modelled effect)')
+            return [(st, None)]
         if not isinstance(fv, FuncVal):
             raise CheckerError('call of non-function %r in %s' % (fv, fr.qual))
         if fv.kind == 'builtin':
@@ -327,6 +331,7 @@ class CallMixin:
                     v = self.ev1(self.parse_spec(text), st, sf)
                     self.oblige(st, '%s#call[%s].requires[%s]' % (fr.prefix, short, j), truthy(v), {'text': text})
                     st.assume(asz(truthy(v)))
+            self.site_hook(st, fr, c, saved)
             outs = []
             # exceptional outcomes
             for ename, spec in c.raises.items():
@@ -354,6 +359,49 @@ class CallMixin:
         if self.feasible(st):
             outs.append((st, res))
         return outs
+
+    def site_hook(self, st, fr, c, caller_env):
+        """Call-site clauses of the sidecar: assertions over the caller's locals at a call of `c`
+        (`site(caller, callee, ordinal, asserts=[...])`), evaluated in the pre-call state."""
+        if fr.spec:
+            return
+        short = c.qual.split(':')[-1]
+        key0 = (fr.contract_qual if hasattr(fr, 'contract_qual') else fr.qual, short)
+        sites = [s_ for s_ in self.reg.sites if (s_['caller'], s_['callee']) == key0]
+        if not sites:
+            return
+        counter = fr.__dict__.setdefault('site_counter', {})
+        cf = self.Frame(fr.module, fr.qual, fr.cls, spec=True)
+        cf.closure = dict(fr.closure)
+        cf.closure.update(caller_env)
+        cf.old = fr.old
+        cf.bound = dict(fr.bound)
+        node_ord = self.call_ordinal(fr, short)
+        for s_ in sites:
+            if s_['ordinal'] is not None and s_['ordinal'] != node_ord:
+                continue
+            for j, text, tags in self.clauses(s_['asserts']):
+                v = self.ev1(self.parse_spec(text), st, cf)
+                self.oblige(st, '%s#site[%s@%s].%s' % (fr.prefix, short, node_ord, j), truthy(v), {'text': text, 'tags': tags})
+                st.assume(asz(truthy(v)))
+
+    def call_ordinal(self, fr, short):
+        """Ordinal of the call currently being applied among the calls to `short` in the function source."""
+        node = getattr(self, '_current_call_node', None)
+        fn = getattr(fr, 'fnode', None)
+        if node is None or fn is None:
+            return 0
+        k = 0
+        name = short.split('.')[-1]
+        for n in ast.walk(fn):
+            if isinstance(n, ast.Call):
+                f = n.func
+                fname = f.attr if isinstance(f, ast.Attribute) else (f.id if isinstance(f, ast.Name) else None)
+                if fname == name:
+                    if n is node:
+                        return k
+                    k += 1
+        return 0
 
     def havoc_modifies(self, st, c, sf, pre_heap):
         """modifies entries: 'expr.field' (one location) | ('Class.field', 'lambda r: pred') | 'alloc'."""
